@@ -235,7 +235,8 @@ def shape_sweep():
     defs = {"Tag": {"type": "string", "minLength": 3}, "Lim": {"type": "integer", "minimum": 1, "maximum": 5},
             "Zero": {"type": "integer", "minimum": 0}, "Ratio": {"type": "number", "exclusiveMinimum": 0, "maximum": 1},
             "Debt": {"type": "integer", "maximum": 0}, "Blank": {"type": "string", "minLength": 0, "maxLength": 0},
-            "Obj": {"type": "object", "properties": {"v": {"type": "integer"}}, "required": ["v"]}}
+            "Obj": {"type": "object", "properties": {"v": {"type": "integer"}}, "required": ["v"]},
+            "Frac": {"type": ["number", "null"], "minimum": 0.25, "exclusiveMaximum": 0.5}}
     inner = {
         "ref-scalar": {"$ref": "#/definitions/Tag"}, "ref-int": {"$ref": "#/definitions/Lim"}, "ref-object": {"$ref": "#/definitions/Obj"},
         "ref-zero": {"$ref": "#/definitions/Zero"}, "ref-ratio": {"$ref": "#/definitions/Ratio"}, "ref-debt": {"$ref": "#/definitions/Debt"},
@@ -244,12 +245,22 @@ def shape_sweep():
         "same-type-nullable": {"anyOf": [{"type": "string"}, {"type": ["string", "null"]}]},
         "int-nullable-int": {"anyOf": [{"type": "integer"}, {"type": ["integer", "null"], "format": "int64"}]},
         "nullable-enum": {"type": ["string", "null"], "enum": ["a", "b", None]},
+        # non-integral bounds on numbers written as type lists, strings with a format that stays a plain str
+        "fraction": {"type": "number", "minimum": 0.5, "maximum": 0.75},
+        "nullable-fraction": {"type": ["number", "null"], "minimum": 0.5, "maximum": 0.75},
+        # (a member of type [number, integer] is left out: with --field-constraints pydantic reports Field bounds on a Union in a
+        #  different schema shape although the same values are accepted - comparing reported schemas there would be a false alarm)
+        "ref-nullable-fraction": {"$ref": "#/definitions/Frac"},
+        "formatted-string": {"type": "string", "format": "uri-reference", "minLength": 3, "pattern": "^[a-z/]+$"},
+        "custom-format": {"type": "string", "format": "slug", "minLength": 2, "maxLength": 9},
     }
     for iname, sch in inner.items():
         for pos, wrap in (("direct", lambda x: x), ("items", lambda x: {"type": "array", "items": x}),
                           ("values", lambda x: {"type": "object", "additionalProperties": x}),
                           ("alt", lambda x: {"anyOf": [x, {"type": "boolean"}]})):
             for req in (True, False):
+                if req and iname == "ref-nullable-fraction":
+                    continue  # a required member whose referenced definition admits null: known findings C14-required-nullable-by-style / -union-operator-drops-required
                 d = {"title": "Root", "type": "object", "properties": {"m": wrap(sch)}, "definitions": defs}
                 if req:
                     d["required"] = ["m"]
